@@ -249,8 +249,14 @@ func (e *Engine) Verify(name string) (*VC, error) {
 		v := f.freshVal("fv_"+fv.Name(), fv.Type(), "true", st)
 		f.vals[fv] = v
 		vc.assert(Not(Eq(v.T, "Null")))
-		// a captured variable is a heap object of its own
+		// a captured variable is a heap object of its own, distinct from the others
 		vc.assert(Eq(App("pth", v.T), "PNil"))
+		for _, other := range fn.FreeVars {
+			if other == fv {
+				break
+			}
+			vc.assert(Not(Eq(App("rt", v.T), App("rt", f.vals[other].T))))
+		}
 	}
 	// axioms of the contract files
 	axEnv := &Env{vc: vc, st: st, old: st, vars: map[string]Val{}, fn: fn}
